@@ -68,16 +68,16 @@ type hpeer struct {
 }
 
 type world struct {
-	c       *vhlib.Ctx
-	t       *tor.Torrent
-	ps      uint32
-	length  int64
-	salt    uint64
-	rate    uint32
-	content []byte
-	pstate  []int // 0 missing, 1 unverified data, 2 held (verified)
-	peers   []*hpeer
-	waits   int // 200 ms congestion waits spent so far (whole run)
+	c      *vhlib.Ctx
+	t      *tor.Torrent
+	ps     uint32
+	length int64
+	salt   uint64
+	rate   uint32
+	real   []int // sparse geometry: the only pieces with real hashes (nil: all of them)
+	pstate []int // 0 missing, 1 unverified data, 2 held (verified)
+	peers  []*hpeer
+	waits  int // 200 ms congestion waits spent so far (whole run)
 }
 
 func (w *world) cleanup() {
@@ -111,23 +111,60 @@ func (w *world) pieceRange(j int) (int64, int64) {
 	return lo, hi
 }
 
-func (w *world) reset(ps uint32, length int64, salt uint64, rate uint32) error {
-	w.cleanup()
-	w.ps, w.length, w.salt, w.rate = ps, length, salt, rate
-	w.content = make([]byte, length)
-	for k := range w.content {
-		w.content[k] = contentByte(salt, uint64(k))
+// contentRange is the torrent's true content on [lo, hi), computed on demand (torrents
+// larger than 4 GiB are never materialised).
+func (w *world) contentRange(lo, hi int64) []byte {
+	b := make([]byte, hi-lo)
+	for k := lo; k < hi; {
+		wd := mix64(w.salt + uint64(k/8)*0x9E3779B97F4A7C15)
+		for j := k % 8; j < 8 && k < hi; j++ {
+			b[k-lo] = byte(wd >> (8 * uint(j)))
+			k++
+		}
 	}
+	return b
+}
+
+func (w *world) isReal(j int) bool {
+	if w.real == nil {
+		return true
+	}
+	for _, x := range w.real {
+		if x == j {
+			return true
+		}
+	}
+	return false
+}
+
+// pieceList: the pieces that can ever hold data (all of them, or the sparse list).
+func (w *world) pieceList() []int {
+	if w.real != nil {
+		return w.real
+	}
+	l := make([]int, w.numPieces())
+	for j := range l {
+		l[j] = j
+	}
+	return l
+}
+
+// reset builds a new torrent.  With `real` (sparse geometry, used beyond 4 GiB) only the
+// listed pieces get their true SHA-1 in the metainfo — the others can never be completed —
+// and only they may be the subject of store ops.
+func (w *world) reset(ps uint32, length int64, salt uint64, rate uint32, real []int) error {
+	w.cleanup()
+	w.ps, w.length, w.salt, w.rate, w.real = ps, length, salt, rate, real
 	n := w.numPieces()
-	var hashes bytes.Buffer
-	for j := 0; j < n; j++ {
+	hashes := make([]byte, 20*n)
+	for _, j := range w.pieceList() {
 		lo, hi := w.pieceRange(j)
-		h := sha1.Sum(w.content[lo:hi])
-		hashes.Write(h[:])
+		h := sha1.Sum(w.contentRange(lo, hi))
+		copy(hashes[20*j:], h[:])
 	}
 	var mi bytes.Buffer
-	fmt.Fprintf(&mi, "d4:infod6:lengthi%de4:name3:c1612:piece lengthi%de6:pieces%d:", length, ps, hashes.Len())
-	mi.Write(hashes.Bytes())
+	fmt.Fprintf(&mi, "d4:infod6:lengthi%de4:name3:c1612:piece lengthi%de6:pieces%d:", length, ps, len(hashes))
+	mi.Write(hashes)
 	mi.WriteString("ee")
 	t, err := tor.ReadTorrent("", &mi)
 	if err != nil {
@@ -143,7 +180,7 @@ func (w *world) reset(ps uint32, length int64, salt uint64, rate uint32) error {
 
 func (w *world) heldStr() string {
 	var hs []string
-	for j := 0; j < w.numPieces(); j++ {
+	for _, j := range w.pieceList() {
 		if w.t.Pieces.Complete(uint32(j)) {
 			hs = append(hs, strconv.Itoa(j))
 		}
@@ -152,14 +189,14 @@ func (w *world) heldStr() string {
 }
 
 func (w *world) storeOp(kind string, j int) string {
-	if j < 0 || j >= w.numPieces() {
+	if j < 0 || j >= w.numPieces() || !w.isReal(j) {
 		return "bad-op"
 	}
 	lo, hi := w.pieceRange(j)
 	ps := &w.t.Pieces
 	switch kind {
 	case "add":
-		ps.AddData(uint32(j), 0, append([]byte(nil), w.content[lo:hi]...), 7)
+		ps.AddData(uint32(j), 0, w.contentRange(lo, hi), 7)
 		done, _, err := ps.Finalise(uint32(j), w.t.PieceHashes[j])
 		if ps.Complete(uint32(j)) {
 			w.pstate[j] = 2
@@ -168,12 +205,12 @@ func (w *world) storeOp(kind string, j int) string {
 		}
 	case "partial":
 		if w.pstate[j] == 0 {
-			ps.AddData(uint32(j), 0, append([]byte(nil), w.content[lo:hi]...), 7)
+			ps.AddData(uint32(j), 0, w.contentRange(lo, hi), 7)
 			w.pstate[j] = 1
 		}
 	case "bad":
 		if w.pstate[j] == 0 {
-			bad := append([]byte(nil), w.content[lo:hi]...)
+			bad := w.contentRange(lo, hi)
 			bad[len(bad)/2] ^= 0x55
 			ps.AddData(uint32(j), 0, bad, 7)
 			ps.Finalise(uint32(j), w.t.PieceHashes[j]) // hash mismatch: discarded
@@ -183,7 +220,7 @@ func (w *world) storeOp(kind string, j int) string {
 		}
 	case "evict":
 		if w.pstate[j] != 0 {
-			for x := 0; x < w.numPieces(); x++ {
+			for _, x := range w.pieceList() {
 				ps.VerifSetTime(uint32(x), ^uint32(0))
 			}
 			ps.VerifSetTime(uint32(j), 0)
@@ -193,7 +230,7 @@ func (w *world) storeOp(kind string, j int) string {
 			}
 			w.pstate[j] = 0
 			// Expire must not have touched anything else
-			for x := 0; x < w.numPieces(); x++ {
+			for _, x := range w.pieceList() {
 				if (w.pstate[x] == 2) != ps.Complete(uint32(x)) {
 					w.c.Violate("store-setup:evict-other", fmt.Sprintf("piece %d", x), w.c.Case())
 					if ps.Complete(uint32(x)) {
@@ -731,13 +768,33 @@ func (w *world) exec(line string) {
 		return
 	}
 	switch {
-	case isReset && len(f) == 5:
+	case isReset && (len(f) == 5 || len(f) == 6):
+		// reset <ps> <length> <salt> <rate> [@j1,j2,...]   (the list: sparse geometry)
 		ps, ok1 := atoi(f[1])
 		length, ok2 := atoi(f[2])
 		salt, err3 := strconv.ParseUint(f[3], 10, 64)
 		rate, ok4 := atoi(f[4])
-		if ok1 && ok2 && err3 == nil && ok4 && ps > 0 && ps%16384 == 0 && ps <= 1<<20 && length > 0 && length <= 1<<23 && rate <= 1<<22 {
-			if err := w.reset(uint32(ps), int64(length), salt, uint32(rate)); err != nil {
+		ok := ok1 && ok2 && err3 == nil && ok4 && ps > 0 && ps%16384 == 0 && ps <= 1<<23 && length > 0 && length <= 1<<34 && rate <= 1<<22
+		var real []int
+		if ok && len(f) == 6 {
+			ok = strings.HasPrefix(f[5], "@") && len(f[5]) > 1
+			np := (length + ps - 1) / ps
+			if ok {
+				for _, x := range strings.Split(f[5][1:], ",") {
+					j, okj := atoi(x)
+					if !okj || j >= np || len(real) >= 16 || (len(real) > 0 && j <= real[len(real)-1]) {
+						ok = false
+						break
+					}
+					real = append(real, j)
+				}
+			}
+		}
+		if ok && real == nil && length > 1<<23 {
+			ok = false // a big torrent is never materialised
+		}
+		if ok {
+			if err := w.reset(uint32(ps), int64(length), salt, uint32(rate), real); err != nil {
 				obs = "reset-failed"
 				w.c.Violate("store-setup:reset", err.Error(), []string{line})
 			} else {
